@@ -1,6 +1,6 @@
 """Per-property evidence metadata."""
 LEVEL = {"C17": "fault_enumeration"}
-EXHAUSTIVE = {}
+EXHAUSTIVE = {"C19": True}
 COMMON_ASSUMPTIONS = [
     "the code under test is the working tree at /repo imported in fresh interpreters with PDESY_VERIF=1 (asserted per worker)",
     "unit_time=1, task_performed_mode='multi-workers', deterministic skills (no skill standard deviation)",
